@@ -243,6 +243,122 @@ Proof.
   destruct Hs as (_ & -> & _ & _). lia.
 Qed.
 
+(** * what ANY postprocessing configuration over the TokenMasking table can do to an item: never an Err, info and data
+    untouched, the variant kept, and no sequence gets longer (ClipLength shortens, TokenMasking keeps the lengths) *)
+Definition tin_shorter (t' t : tinput) : Prop :=
+  match t', t with
+  | TIClass ids' _ _, TIClass ids _ _ => length ids' <= length ids
+  | TISeq ids' _ ls', TISeq ids _ ls => length ids' <= length ids /\ length ls' <= length ls
+  | TIGen ids' _ ls', TIGen ids _ ls => length ids' <= length ids /\ length ls' <= length ls
+  | TICond ids' _ tids' _ ls', TICond ids _ tids _ ls =>
+      length ids' <= length ids /\ length tids' <= length tids /\ length ls' <= length ls
+  | _, _ => False
+  end.
+
+Lemma tin_shorter_refl : forall t, tin_shorter t t.
+Proof. intros [a p l|a p ls|a p ls|a p tids tp ls]; cbn; lia. Qed.
+
+Lemma tin_shorter_trans : forall a b c, tin_shorter a b -> tin_shorter b c -> tin_shorter a c.
+Proof.
+  intros [a1 p1 l1|a1 p1 ls1|a1 p1 ls1|a1 p1 t1 q1 ls1] [a2 p2 l2|a2 p2 ls2|a2 p2 ls2|a2 p2 t2 q2 ls2]
+         [a3 p3 l3|a3 p3 ls3|a3 p3 ls3|a3 p3 t3 q3 ls3]; cbn; try tauto; lia.
+Qed.
+
+Definition post_rel2 (x : xitem) (i : info) (r : res (xitem * info)) : Prop :=
+  match r with
+  | ROk (x', i') => i' = i /\ x_data x' = x_data x /\ tin_shorter (x_in x') (x_in x)
+  | RErr _ => False
+  | RPanic _ => True
+  end.
+
+Lemma post_rel2_refl : forall x i, post_rel2 x i (ROk (x, i)).
+Proof. intros. cbn. repeat split. apply tin_shorter_refl. Qed.
+
+Section PostAll.
+Variable qs : list qstage.
+Variable maxlen : nat.
+Notation postproc := (Pipeline_Tasks.postproc (qopq_tab qs) maxlen).
+
+Lemma qchain_rel2 : forall l, Forall (fun c => qrefs_ok (length qs) c = true -> forall x i, post_rel2 x i (postproc c x i)) l ->
+  forallb (qrefs_ok (length qs)) l = true -> forall x i, post_rel2 x i (qchain_run (qopq_tab qs) maxlen l x i).
+Proof.
+  induction l as [|c r IH]; intros HF Hop x i; [apply post_rel2_refl|].
+  cbn [forallb] in Hop. apply andb_true_iff in Hop. destruct Hop as [Hc Hr].
+  inversion HF as [|? ? Hhd Htl]; subst. cbn [qchain_run].
+  pose proof (Hhd Hc x i) as H1. destruct (postproc c x i) as [[x1 i1]| |]; cbn [post_rel2] in H1; [|contradiction|exact Logic.I].
+  destruct H1 as (-> & Hd & Hp). pose proof (IH Htl Hr x1 i) as H2.
+  destruct (qchain_run (qopq_tab qs) maxlen r x1 i) as [[x2 i2]| |]; cbn [post_rel2] in *; [|contradiction|exact Logic.I].
+  destruct H2 as (-> & Hd2 & Hp2). repeat split; [congruence|eapply tin_shorter_trans; eassumption].
+Qed.
+
+Lemma qpick_rel2 : forall l, Forall (fun c => qrefs_ok (length qs) c = true -> forall x i, post_rel2 x i (postproc c x i)) l ->
+  forallb (qrefs_ok (length qs)) l = true -> forall k x i,
+  match qpick_run (qopq_tab qs) maxlen l k x i with RErr _ => False | r => post_rel2 x i r end.
+Proof.
+  induction l as [|c r IH]; intros HF Hop k x i; [exact Logic.I|].
+  cbn [forallb] in Hop. apply andb_true_iff in Hop. destruct Hop as [Hc Hr].
+  inversion HF as [|? ? Hhd Htl]; subst. cbn [qpick_run]. destruct k as [|k].
+  - pose proof (Hhd Hc x i) as H. destruct (postproc c x i) as [[x1 i1]| |]; cbn [post_rel2] in *; auto.
+  - exact (IH Htl Hr k x i).
+Qed.
+
+Lemma clip_shorter : forall n t, tin_shorter (clip n t) t.
+Proof.
+  intros n [a p l|a p ls|a p ls|a p tids tp ls]; cbn [clip tin_shorter]; rewrite ?firstn_length; lia.
+Qed.
+
+Lemma mask_rel2 : forall q x i, post_rel2 x i (mask_stage q x i).
+Proof.
+  intros q x i. pose proof (mask_stage_spec q x i) as S. destruct (mask_stage q x i) as [[x' i']|e|s]; cbn [post_rel2];
+    [|contradiction|exact Logic.I].
+  destruct S as (-> & Hd & Hs & mid & _ & [HL _]). repeat split; [exact Hd|].
+  revert Hs HL.
+  destruct (x_in x) as [a p l|a p ls|a p ls|a p tids tp ls], (x_in x') as [a' p' l'|a' p' ls'|a' p' ls'|a' p' tids' tp' ls'];
+    cbn [same_but_ids tin_shorter tin_ids]; intros Hs HL; try contradiction.
+  - rewrite HL. apply le_n.
+  - destruct Hs as [_ <-]. rewrite HL. split; apply le_n.
+  - destruct Hs as [_ <-]. rewrite HL. split; apply le_n.
+  - destruct Hs as (_ & <- & _ & <-). rewrite HL. repeat split; apply le_n.
+Qed.
+
+Lemma postproc_rel2 : forall c, qrefs_ok (length qs) c = true -> forall x i, post_rel2 x i (postproc c x i).
+Proof.
+  induction c using qcfg_ind'; intros Hop x i; cbn [qrefs_ok] in Hop.
+  - apply post_rel2_refl.
+  - rewrite postproc_chain. apply qchain_rel2; assumption.
+  - rewrite postproc_switch. pose proof (qpick_rel2 l H Hop (switch_choice ps (i_seed i)) x i) as Hp.
+    destruct (qpick_run _ _ _ _ _ _) as [[x1 i1]| |]; [exact Hp|contradiction|exact Logic.I].
+  - rewrite postproc_on_mark. destruct (mark_get k (i_marks i)) as [m|]; [|apply post_rel2_refl].
+    destruct (nlist_eqb m v); [|apply post_rel2_refl]. apply qchain_rel2; assumption.
+  - rewrite postproc_switch_on_mark. destruct (mark_get k (i_marks i)) as [m|]; [|exact Logic.I].
+    destruct (C01_Model.index_of m vs) as [idx|]; [|exact Logic.I].
+    pose proof (qpick_rel2 l H Hop idx x i) as Hp.
+    destruct (qpick_run _ _ _ _ _ _) as [[x1 i1]| |]; [exact Hp|contradiction|exact Logic.I].
+  - cbn [Pipeline_Tasks.postproc post_rel2 x_data x_in]. repeat split. apply clip_shorter.
+  - cbn [Pipeline_Tasks.postproc]. unfold qopq_tab. apply Nat.ltb_lt in Hop.
+    destruct (nth_error qs id) as [q|] eqn:E; [apply mask_rel2|]. apply nth_error_None in E. lia.
+Qed.
+End PostAll.
+
+(** * the masking loop is total: with at least two maskable tokens every round makes progress, so the outer loop never
+    runs out of its fuel unless the sampler does *)
+Lemma mask_loop_total : forall fuel g p' mn nm npfx mid i ids st,
+  (1 <= mn)%N -> 2 <= nm -> nm - i < fuel ->
+  mask_loop fuel g p' mn nm npfx mid i ids st = MkFuel ->
+  exists st', geo_sample geo_fuel g st' = GSFuel.
+Proof.
+  induction fuel as [|f IH]; intros g p' mn nm npfx mid i ids st Hmn Hnm Hf H; [lia|].
+  cbn [mask_loop] in H. destruct (Nat.leb nm i) eqn:Ei; [discriminate|]. apply Nat.leb_gt in Ei.
+  destruct (random_f64 st) as [u st1]. destruct (fgt (Fin u (-53)) p').
+  - eapply IH; [exact Hmn|exact Hnm| |exact H]. lia.
+  - destruct (geo_sample geo_fuel g st1) as [x st2| | |] eqn:Es; try discriminate; [|exists st1; exact Es].
+    destruct (p64 <=? x + mn)%N; [discriminate|].
+    set (n := N.to_nat (N.min (N.min (x + mn) (N.of_nat (nm / 2))) (N.of_nat (nm - i)))) in H.
+    assert (Hn : 1 <= n).
+    { unfold n. assert (1 <= nm / 2) by (apply Nat.div_le_lower_bound; lia). lia. }
+    eapply IH; [exact Hmn|exact Hnm| |exact H]. lia.
+Qed.
+
 (** * SpellingCorruption, every mode: C15's theorems at the stage *)
 Lemma spell_ctor_run : forall prob fd m seed s, spell_ctor_ok prob m = true ->
   spell_text (smode_no m) fd prob (smode_pc m) (smode_art m) (smode_items m) (smode_miss m) seed s <> SpPanicProb /\
